@@ -918,6 +918,11 @@ class LoopRig:
 
 		def fake_tty(prompt: str = '') -> list[str]:
 			self._mark()
+			while feed and feed[0][0] == 'write':  # ('write', path relative to the cwd, text): the user edits a file between two prompts
+				_, rel, text = feed.pop(0)
+				os.makedirs(os.path.dirname(os.path.abspath(rel)), exist_ok=True)
+				with open(rel, 'wb') as f:
+					f.write(text.encode('utf-8'))
 			if not feed:
 				raise _Exhausted()
 			item = feed.pop(0)
@@ -1332,11 +1337,13 @@ def stream_render(ctx: Ctx) -> Stream:
 			ls = [rng.choice(line_pool) for _ in range(nlines)]
 			content = '\n'.join(ls) + ('\n' if ls and rng.random() < 0.8 else '')
 			exists = rng.random() < 0.9
-			name = f'q{i}'
+			name = f'q{i % 7}'  # a handful of paths, rewritten (or removed) again and again: the quotation reads the file as it is NOW
 			path = os.path.join('qz', f'{name}.py')
 			if exists:
 				with open(os.path.join(root, path), 'wb') as f:
 					f.write(content.encode('utf-8'))
+			elif os.path.exists(os.path.join(root, path)):
+				os.remove(os.path.join(root, path))
 			raw_lines = [ln.decode('utf-8') for ln in content.encode('utf-8').splitlines(keepends=True)] if exists else []
 			# readlines() of a binary file splits on b'\n' only
 			raw_lines = [ln.decode('utf-8') for ln in io.BytesIO(content.encode('utf-8')).readlines()] if exists else []
@@ -1758,7 +1765,7 @@ def fuzz_inputs(ctx: Ctx) -> list[tuple[str, str, str | bytes]]:
 	out: list[tuple[str, str, str | bytes]] = []
 	both = ('in-memory', 'on-disk')
 	for rec in load_corpus():
-		if rec.get('kind') == 'cli-session':  # replayed by search_cli_sessions
+		if rec.get('kind') in ('cli-session', 'file-edit-session'):  # replayed by search_cli_sessions / search_session_file_edits
 			continue
 		data: str | bytes = bytes.fromhex(rec['source_hex']) if rec.get('source_hex') else rec['source']
 		for m in ([rec['mode']] if rec.get('mode') in both else both):
@@ -1825,7 +1832,7 @@ def fuzz_inputs(ctx: Ctx) -> list[tuple[str, str, str | bytes]]:
 	if ctx.thorough:
 		for name, s in gen.large_sources():
 			out.append(('seed-large', 'in-memory', s))
-	n = ctx.scale(480, 15000)
+	n = ctx.scale(420, 15000)
 	big = [s for _, s in gen.large_sources()] if ctx.thorough else []
 	chunk_share = 0.06 if ctx.thorough else 0.03  # a chunk costs ~0.2 s per run, a small seed ~0.02 s
 	for i in range(n):
@@ -2243,6 +2250,194 @@ def search_render_nodes(ctx: Ctx, only: tuple[str, str] | None = None) -> Search
 
 
 # ---------------------------------------------------------------------------------------------
+# search: render histories in ONE process — the same module path with other content, rendered again (fresh App in between), and
+# errors that carry a node of an EARLIER version of the file
+
+_RH_BAD = 'def f(a: Undefined) -> None: ...'
+RENDER_VERSION_CHAINS: list[list[str]] = [
+	[f'{_RH_BAD}\n', f'class A:\n\tdef __init__(self, n: int) -> None:\n\t\tself.n: int = n\n\n\n{_RH_BAD}\n'],           # the file grows, the error moves down
+	['# 1\n# 2\n# 3\n# 4\na: int = 1\nb: int = 2\n', 'a: int = 1\n', ''],                                                    # the file shrinks, then is emptied (loads succeed: stale nodes)
+	[f'# 1\n# 2\n# 3\n# 4\n{_RH_BAD}\n', f'{_RH_BAD}\n', 'a: int = 1\n\n\n\nb: int = 2\n'],                                 # the load error moves up; then a valid longer file
+	['a: int = 1\nb: int = 2\nc: int = 3\n', 'x: str = "s"\ny: str = "t"\nz: str = "u"\n'],                              # same shape, other text
+	['', 'a: int = 1\n', '\n\n\na: int = 1\n', 'a: int = 1'],                                                          # from nothing; leading blanks; no final line feed
+	['if True:\n\tx: int = 1\n\ty: int = 2\n', 'if True:\n\tx: int = 1\n'],
+]
+
+
+def search_render_histories(ctx: Ctx) -> SearchResult:
+	"""`str(ErrorRender(e))` is a function of the error and of what the quoted file holds NOW: defined whatever node the error carries
+	(also a node of an earlier version of the file — an imported module edited while the session keeps it loaded), the same text when
+	rendered twice, and the quoted line is the line the file holds now (own reading of the file)."""
+	from rogw.tranp.view.error_render import ErrorRender
+	Errors = _errors()
+	res = SearchResult('render histories in one process: versions of the same module path (fresh App per version) — every render defined, repeatable, quoting the CURRENT file')
+	rng = ctx.sub_rng('render-histories')
+	hist: Counter[str] = Counter()
+	seen: set[str] = set()
+	base = ctx.tmpdir()
+	dl = _deadline(ctx, 'render-histories', ctx.scale(30, 300))
+	# a fresh App per version costs ~1 s: the quick tier takes the three chains with a growing / shrinking file; the synthetic part below
+	# (no App: a node is a module path + a source map) rewrites a few paths again and again
+	chains = [list(c) for c in (RENDER_VERSION_CHAINS if ctx.thorough else RENDER_VERSION_CHAINS[:3])]
+	pool = [t for t in RENDER_NODE_TEXTS if isinstance(t, str)] + [s for s in gen.VALID_PROGRAMS[:6]] + [f'{_RH_BAD}\n', f'\n\n{_RH_BAD}\n']
+	for _ in range(ctx.scale(0, 60)):
+		chains.append([rng.choice(pool) for _i in range(rng.randint(2, 4))])
+
+	def check(chain_no: int, version: int, which: str, node: Any, path: str, chain: list[str]) -> None:
+		res.cases += 1
+		texts = []
+		try:
+			for _k in range(2):
+				try:
+					raise Errors.Logic(node, 'm')
+				except Errors.Error as e:
+					with pl.budget():
+						out = str(ErrorRender(e))
+				if not isinstance(out, str):
+					raise TypeError(f'str(ErrorRender) returned {type(out).__name__}')
+				texts.append(out.split('\nStacktrace:')[0] if False else out)
+		except (KeyboardInterrupt, SystemExit):
+			raise
+		except BaseException as e2:  # noqa: BLE001
+			key = f'render-history:{pl.escape_key(e2, "on-disk")}[{which}]'
+			hist[key] += 1
+			if key not in seen:
+				seen.add(key)
+				res.findings.append(Finding(key=key, what=f'str(ErrorRender(Errors.Logic(node, …))) raised {display(type(e2))} for a {which} node of version {version} of the chain {chain[:version + 1]!r} (same module path, fresh App per version)',
+					replay={'kind': 'render-history', 'chain': chain[:version + 1], 'which': which, 'tranp_frames': pl.tranp_frames(e2)[-5:]}))
+				ctx.notes.append(f'finding key={key} | version chain {chain[:version + 1]!r}')
+			return
+		quoted = [ln for ln in texts[0].split('\n') if ln.startswith('    >>> ')]
+		hist[f"{which}/{'quoted' if 'via Node:' in texts[0] else 'plain'}"] += 1
+		problem = ''
+		# the stack trace part names the raise site above (the same both times); the whole text must repeat
+		if texts[0] != texts[1]:
+			problem = 'rendered twice, two different texts'
+		elif 'via Node:' in texts[0] and which == 'current':
+			# own reading: line `begin line` of the file as it is now, tabs shown as blanks
+			try:
+				with open(path, 'rb') as f:
+					now = f.read().decode('utf-8').split('\n')
+				want = now[node.source_map['begin'][0] - 1].replace('\t', ' ')
+			except Exception:  # noqa: BLE001
+				want = None
+			cause = texts[0].split('via Node:\n', 1)[1].split('\n')[1] if 'via Node:\n' in texts[0] else ''
+			if want is not None and cause != f'    >>> {want}':
+				problem = f'quoted {cause!r}, the file holds {want!r} on that line'
+		_ = quoted
+		if problem:
+			key = f"render-history:{'unrepeatable' if 'twice' in problem else 'stale-quotation'}[{which}]"
+			hist[key] += 1
+			if key not in seen:
+				seen.add(key)
+				res.findings.append(Finding(key=key, what=f'{problem} — {which} node of version {version} of the chain {chain[:version + 1]!r} (same module path, fresh App per version)',
+					replay={'kind': 'render-history', 'chain': chain[:version + 1], 'which': which}))
+				ctx.notes.append(f'finding key={key} | version chain {chain[:version + 1]!r}: {problem}')
+
+	for chain_no, chain in enumerate(chains):
+		if dl.over():
+			continue
+		first = pl.Pipeline('on-disk', base)
+		pipes = [first]
+		old_nodes: list[Any] = []
+		old_cwd = os.getcwd()
+		try:
+			for version, text in enumerate(chain):
+				# every version is written to the SAME path (fz/m1.py of the shared project) and loaded by a brand-new App
+				pipe = first if version == 0 else pl.Pipeline('on-disk', base, share=(first.proj, os.path.join(first.root, 'cache')))
+				if version:
+					pipes.append(pipe)
+				module, exc = pipe.load_module(text)
+				path = os.path.join(first.proj, 'fz', 'm1.py')
+				os.chdir(first.proj)
+				# errors that still carry a node of the PREVIOUS version (the module stayed loaded somewhere while the file changed)
+				for node in old_nodes[:ctx.scale(12, 60)]:
+					check(chain_no, version, 'stale', node, path, chain)
+				# an application error of the load itself carries a node of this version
+				if exc is not None and isinstance(exc, Errors.Error):
+					res.cases += 1
+					try:
+						with pl.budget():
+							str(ErrorRender(exc))
+						hist['load-error/rendered'] += 1
+					except (KeyboardInterrupt, SystemExit):
+						raise
+					except BaseException as e2:  # noqa: BLE001
+						key = f'render-history:{pl.escape_key(e2, "on-disk")}[load-error]'
+						hist[key] += 1
+						if key not in seen:
+							seen.add(key)
+							res.findings.append(Finding(key=key, what=f'str(ErrorRender(e)) raised {display(type(e2))} for the {type(exc).__name__} of loading version {version} of the chain {chain[:version + 1]!r} (same module path, fresh App per version)',
+								replay={'kind': 'render-history', 'chain': chain[:version + 1], 'which': 'load-error', 'tranp_frames': pl.tranp_frames(e2)[-5:]}))
+							ctx.notes.append(f'finding key={key} | version chain {chain[:version + 1]!r}')
+				os.chdir(old_cwd)
+				if module is None:
+					hist[f'load:{type(exc).__name__}'] += 1
+					# the half-loaded module's nodes are not reachable from here; keep the previous version's nodes
+					continue
+				try:
+					with pl.budget():
+						root = module.entrypoint
+						nodes = [root, *root.procedural()]
+				except BaseException as e:  # noqa: BLE001
+					hist[f'enumerate:{type(e).__name__}'] += 1
+					continue
+				os.chdir(first.proj)
+				for node in nodes[:ctx.scale(25, 120)]:
+					check(chain_no, version, 'current', node, path, chain)
+				os.chdir(old_cwd)
+				old_nodes = nodes
+		finally:
+			os.chdir(old_cwd)
+			for pp in reversed(pipes):
+				pp.close()
+	# synthetic nodes (module path + source map on a real Node subclass) over a handful of paths whose files are rewritten every round:
+	# spans INSIDE the current content (what a fresh parse of it yields) — the node kind is irrelevant for the quotation
+	FakeNode = _fake_node_base()
+
+	class SpanNode(FakeNode):  # type: ignore[misc,valid-type]
+		def __init__(self, module_path: str, sm: tuple[int, int, int, int]) -> None:
+			super().__init__('span')
+			self._mp = module_path
+			self._sm = sm
+
+		@property
+		def module_path(self) -> str:
+			return self._mp
+
+		@property
+		def source_map(self) -> Any:
+			return {'begin': (self._sm[0], self._sm[1]), 'end': (self._sm[2], self._sm[3])}
+
+	sroot = ctx.tmpdir()
+	os.makedirs(os.path.join(sroot, 'sz'))
+	line_pool = ['x = y', '\tz = 1', '\t\tdeep = [1, 2]', 'ünï = "日本"', '# c', 'def f() -> None:', '\tpass', 'a\tb\tc', 'q: int = 0']
+	old_cwd = os.getcwd()
+	os.chdir(sroot)
+	try:
+		for i in range(ctx.scale(120, 1500)):
+			if dl.over():
+				continue
+			name = f'p{i % 3}'
+			n = rng.choice([1, 1, 2, 3, 5, 8, 13])
+			ls = [rng.choice(line_pool) for _ in range(n)]
+			with open(os.path.join(sroot, 'sz', f'{name}.py'), 'wb') as f:
+				f.write(('\n'.join(ls) + ('\n' if rng.random() < 0.8 else '')).encode('utf-8'))
+			for _j in range(2):
+				bl = rng.randint(1, n)
+				el = bl if rng.random() < 0.7 else rng.randint(bl, n)
+				bc = rng.randint(1, max(1, len(ls[bl - 1])))
+				ec = rng.randint(bc, max(bc, len(ls[el - 1]) + 1))
+				check(-1, i, 'current', SpanNode(f'sz.{name}', (bl, bc, el, ec)), os.path.join(sroot, 'sz', f'{name}.py'), [f'<{n} lines written to sz/{name}.py, round {i}>'])
+	finally:
+		os.chdir(old_cwd)
+	res.distinct = res.cases
+	res.histogram = dict(sorted(hist.items()))
+	res.note = f'{len(chains)} chains of 2..4 versions of one on-disk module (grows, shrinks, same shape / other text, emptied, from nothing); per version: nodes of the previous version (stale), the load error, every node of the new tree; each rendered twice; plus synthetic in-range spans over three paths rewritten every round'
+	return res
+
+
+# ---------------------------------------------------------------------------------------------
 # search: sessions of the real interactive loop (the property's history quantifier)
 
 HISTORY_POOL_EXTRA = ['x = y', 'a = = 1', 'def f(:', 'a = $', 'if a:\n        x = 1\n    y = 2', 'from nowhere import X', 'a, b = 1', 'x = x', 'x = lambda a, b: a',
@@ -2319,7 +2514,7 @@ def search_loop_histories(ctx: Ctx) -> SearchResult:
 	for kind in (gen.DEPTH_KINDS if ctx.thorough else ('paren', 'list', 'minus')):
 		for d in (((10, 100, 250, 300, 600) if ctx.thorough else (100, 300)) if kind in ('paren', 'list', 'minus', 'tuple') else (100, 300)):
 			histories.append([gen.DEPTH_KINDS[kind](d), 'b = 2'])
-	for _ in range(ctx.scale(28, 400)):
+	for _ in range(ctx.scale(22, 400)):
 		n = rng.randint(2, 6)
 		h = [rng.choice(selfs) if rng.random() < 0.25 else rng.choice(pool) for _ in range(n)]
 		if rng.random() < 0.35:
@@ -2370,7 +2565,7 @@ def search_loop_histories(ctx: Ctx) -> SearchResult:
 	# the reference rigs only — grammar and library caches warm, `__main__` is never cached)
 	ref_cache = os.path.join(ctx.tmpdir(), 'reference-cache')
 	alone: dict[tuple[str, ...], tuple[str, str]] = {}
-	max_refs = ctx.scale(28, 600)
+	max_refs = ctx.scale(22, 600)
 
 	def alone_outcome(req: list[str]) -> tuple[str, str] | None:
 		k = tuple(req)
@@ -2449,6 +2644,66 @@ def search_loop_histories(ctx: Ctx) -> SearchResult:
 	res.note = (f'{len(histories)} sessions of 2..6 requests handed over by a scripted tty: valid programs, ill-typed templates, unparsable texts, programs importing from their '
 		f'own module (one-module import cycle), token mutations, EMPTY requests; {len(transcripts)} keyboard transcripts read by the real tty() (scripted readline): blank and '
 		'whitespace-only lines, repeated Enter, `exit` inside a request')
+	return res
+
+
+# ---------------------------------------------------------------------------------------------
+# search: interactive sessions in which the user edits an IMPORTED on-disk module between two prompts
+
+_FE_BAD = 'def f(a: Undefined) -> None: ...\n'
+_FE_USE = ['from pkg.m import f', 'x = f + 1']
+FILE_EDIT_SESSIONS: list[list[tuple[str, Any]]] = [
+	# the imported module is shortened: the session keeps the module (and its nodes) of the first load
+	[('write', 'pkg/m.py', '# 1\n# 2\n# 3\n# 4\n' + _FE_BAD), ('lines', _FE_USE), ('write', 'pkg/m.py', _FE_BAD), ('lines', _FE_USE), ('lines', ['b = 2'])],
+	# … grows (the error moves down), … is emptied, … is removed
+	[('write', 'pkg/m.py', _FE_BAD), ('lines', _FE_USE), ('write', 'pkg/m.py', 'class A: ...\n\n\n\n' + _FE_BAD), ('lines', _FE_USE), ('lines', ['b = 2'])],
+	[('write', 'pkg/m.py', '\n\n' + _FE_BAD), ('lines', _FE_USE), ('write', 'pkg/m.py', ''), ('lines', _FE_USE), ('lines', [])],
+	# a valid module whose user fails: the error carries a node of the imported module's function
+	[('write', 'pkg/m.py', '# c\n# c\n# c\ndef f() -> int:\n\treturn 1\n'), ('lines', ['from pkg.m import f', 'x: int = f().nothing']), ('write', 'pkg/m.py', 'def f() -> int: ...\n'),
+		('lines', ['from pkg.m import f', 'x: int = f().nothing']), ('lines', ['from pkg.m import f', 'x: int = f()'])],
+]
+
+
+def _run_file_edit_session(ctx: Ctx, script: list[tuple[str, Any]]) -> tuple[str, str, BaseException | None]:
+	"""a brand-new Interactive in a brand-new working directory (modules and quotations are resolved relative to the cwd) → (status, expected, exception)"""
+	root = ctx.tmpdir()
+	os.makedirs(os.path.join(root, 'pkg'))
+	with open(os.path.join(root, 'pkg', '__init__.py'), 'w', encoding='utf-8') as f:
+		f.write('')
+	old_cwd = os.getcwd()
+	os.chdir(root)  # before the App exists: its source paths start at the cwd
+	try:
+		rig = LoopRig(ctx)
+		out = rig.run_script([tuple(x) for x in script])  # type: ignore[misc]
+	finally:
+		os.chdir(old_cwd)
+	return out, f"running {sum(1 for x in script if x[0] != 'write')}", rig.last_exc
+
+
+def search_session_file_edits(ctx: Ctx) -> SearchResult:
+	res = SearchResult('interactive sessions with an imported on-disk module edited between two prompts (shortened, grown, emptied): every request is served, every error printed')
+	hist: Counter[str] = Counter()
+	seen: set[str] = set()
+	dl = _deadline(ctx, 'file-edit-sessions', ctx.scale(30, 200))
+	witnesses = [[tuple(x) for x in rec['script']] for rec in load_corpus() if rec.get('kind') == 'file-edit-session']
+	for script in [*witnesses, *(FILE_EDIT_SESSIONS if ctx.thorough else FILE_EDIT_SESSIONS[1:3])]:
+		if dl.over():
+			continue
+		res.cases += 1
+		out, expected, e = _run_file_edit_session(ctx, script)
+		hist[out.split(' ')[0]] += 1
+		if out == expected:
+			continue
+		key = 'loop:' + (pl.escape_key(e, 'on-disk') if e is not None else f'file-edit:{out.split(" ")[0]}-instead-of-running')
+		hist[key] += 1
+		if key in seen:
+			continue
+		seen.add(key)
+		res.findings.append(Finding(key=key, what=f'Interactive.run ended with {out!r} (expected {expected!r}) on the session {script!r}',
+			replay={'kind': 'file-edit-session', 'script': [list(x) for x in script], 'status': out, 'tranp_frames': pl.tranp_frames(e)[-6:] if e is not None else []}))
+		ctx.notes.append(f'finding key={key} | session {script!r} → {out}')
+	res.distinct = res.cases
+	res.histogram = dict(hist)
 	return res
 
 
@@ -2704,6 +2959,8 @@ STATEMENTS = {
 	'request_step': 'one pass of the loop for a request given as a list of lines = the abstract step: quit on the quit command, otherwise the outcome decides (so loop / loop_history / turn_survives cover every request)',
 	'request_survives': 'every request other than the quit command with an outcome in {ok} ∪ Errors.Error returns to the prompt',
 	'quit_test_unguarded_counterexample': 'NEGATIVE: `lines[0] == quit line` without the length guard raises IndexError on the empty request outside the inner try and ends the session',
+	'render_quotation_stale_counterexample': 'NEGATIVE (pinned shape, position guard only): a node on line 5 of a file that holds one line NOW makes __build_quotation raise IndexError — the hypothesis of render_total is not established by the code (finding loop:IndexError@view/error_render.py:ErrorRender.Quotation.__load_line)',
+	'render_quotation_guarded_total': 'with the position guard and the line guard (generated flag quotationLineGuard; proposed/C07-quotation-stale-line.diff) __build_quotation never raises: for every argument kind, file content and source map it returns a quotation or nothing',
 	'tty_raise_unprotected': 'NEGATIVE (the hazard behind finding cli:UnicodeDecodeError@bin/io.py:readline): `lines = tty(prompt)` is outside the inner try — every exception of tty()/readline other than KeyboardInterrupt, Errors.Error included, ends the session',
 	'tty_request_shape': 'for every keyboard transcript tty() hands over a request without empty lines, containing the quit line only as the whole quit command, and consumes at least one key',
 	'tty_quit_typed': 'the keys left by tty() are keys of the transcript; the quit command is handed over only when the quit line was typed',
@@ -2768,7 +3025,7 @@ def run(ctx: Ctx) -> int:
 						streams.append(st)
 	with ctx.timed('search'):
 		searches = []
-		for fn in (search_f3_replay, search_laws, search_render_nodes, search_cache_history, search_loop_histories, search_cli_sessions, search_fuzz):
+		for fn in (search_f3_replay, search_laws, search_render_nodes, search_render_histories, search_cache_history, search_loop_histories, search_session_file_edits, search_cli_sessions, search_fuzz):
 			with ctx.timed(f'search:{fn.__name__}'):
 				sr = _guarded(ctx, fn, crashes)
 				if sr is not None:
@@ -2818,6 +3075,34 @@ def replay(ctx: Ctx, path: str) -> int:
 		known = {k['key'] for k in common.load_known(PROP) if k.get('status') == 'known'}
 		bad = [f for f in r.findings if f.key not in known]
 		print(f"replay: render law on the {rec['input']['mode']} module {rec['input']['source']!r}: {r.cases} renders, {'; '.join(f.key for f in r.findings) or 'all defined'}")
+		if bad:
+			print(f'VIOLATION property={PROP} replay={os.path.relpath(path, common.VERIF)}')
+		ctx.cleanup()
+		return 1 if bad else 0
+	if rec.get('kind') == 'failing-input' and rec['input'].get('kind') == 'render-history':
+		# the history reaches back over the chains rendered before (one process): re-run the search of that tier and seed, look for the key
+		ctx2 = Ctx(PROP, rec.get('tier', 'quick'), int(rec.get('seed', 0)))
+		r = search_render_histories(ctx2)
+		ctx2.cleanup()
+		known = {k['key'] for k in common.load_known(PROP) if k.get('status') == 'known'}
+		hit = [f for f in r.findings if f.key == rec.get('key')]
+		print(f"replay: render histories -> {'reproduced: ' + hit[0].what[:400] if hit else 'key not reproduced'}; all keys {[f.key for f in r.findings]}")
+		for f in hit:
+			if f.key in known:
+				print(f'KNOWN-FINDING: property={PROP} [key={f.key}]')
+		bad = [f for f in hit if f.key not in known]
+		if bad:
+			print(f'VIOLATION property={PROP} replay={os.path.relpath(path, common.VERIF)}')
+		ctx.cleanup()
+		return 1 if bad else 0
+	if rec.get('kind') == 'failing-input' and rec['input'].get('kind') == 'file-edit-session':
+		out, expected, e = _run_file_edit_session(ctx, [tuple(x) for x in rec['input']['script']])
+		key = 'loop:' + (pl.escape_key(e, 'on-disk') if e is not None else f'file-edit:{out.split(" ")[0]}-instead-of-running')
+		print(f"replay: session {rec['input']['script']!r} -> {out} (expected {expected})" + (f' key {key}' if out != expected else ''))
+		known = {k['key'] for k in common.load_known(PROP) if k.get('status') == 'known'}
+		if out != expected and key in known:
+			print(f'KNOWN-FINDING: property={PROP} [key={key}]')
+		bad = out != expected and key not in known
 		if bad:
 			print(f'VIOLATION property={PROP} replay={os.path.relpath(path, common.VERIF)}')
 		ctx.cleanup()
